@@ -68,6 +68,26 @@ CHECKS = {
         note="Trusted: INTERP/ASTProperties abstract (determinism is C13); opcode objects immutable once in a Pickled; slice-valued indices "
              "outside the verified signature; injection helpers are covered under C08; refutations are replayed by replay/edits_diff.py.",
         ref="§C14"),
+    "C13": dict(
+        text="Proof, three families of obligations: (a) frames — every read-only query (Pickled.ast/properties/has_*/dumps/import summaries, "
+             "check_safety, Analyzer, each analysis, AnalysisResults, Trace.run, every opcode run against the generic frame) is verified to write "
+             "only the two caches, objects it allocated, node-owned lists and line numbers — never the opcode list, the opcode objects or "
+             "anything an earlier answer came from — so each query is a function of the opcode sequence whatever was asked before; "
+             "(b) types — at every AST construction, fields consumers iterate hold lists/tuples (not one-shot iterators or bare nodes) and "
+             "ast.Constant holds a Python constant; (c) no id()/hash() reaches an output and the one iteration over a set only keys a dict.",
+        note="The cross-process clause is argued from (a)-(c), observed only by the bounded companion replay/determinism_diff.py (two processes, "
+             "different PYTHONHASHSEED); Interpreter.unused_assignments is under a trusted contract; FROZENSET is a recorded known finding.",
+        ref="§C13"),
+    "C19": dict(
+        text="Proof: each of the nine analyses is symbolically executed under the precondition 'the pickle decompiled (its AST is built and "
+             "well-typed)' against a contract with an empty raises clause — every indexing, split, dict lookup and attribute access on every path "
+             "is shown not to raise; every yield is shown to be an AnalysisResult whose trigger is JSON-serialisable; shorten_code, "
+             "AnalysisContext.analyze, Analyzer.analyze, AnalysisResults.severity/to_dict/detailed_results and check_safety are verified; "
+             "that the UnsafeFileError carries the same report is C02's obligation.",
+        note="Trusted: the typed view of the AST (ImportFrom.module / alias.name are str, import and call summaries are lists) as the meaning "
+             "of 'decompiles'; totality is modulo resource exhaustion; Interpreter.unused_assignments under a trusted contract; decompilation "
+             "is deterministic (DECOMPILES ghost predicate, C13).",
+        ref="§C19"),
 }
 NA_REASON = "check not built yet (work in progress; see DESIGN.md)"
 
